@@ -52,13 +52,14 @@ fn der(shape: &Shape, muts: &[&str]) -> (Vec<u8>, bool) {
     if shape.private {
         body.extend(tlv(0x02, &[u8::from(has("version_one"))]));
         body.extend(&alg);
-        let inner = tlv(if has("inner_tag") { 0x03 } else { 0x04 }, &key);
-        body.extend(tlv(if has("key_tag") { 0x03 } else { 0x04 }, &inner));
+        let inner_tag = if has("inner_tag") { 0x03 } else if has("inner_tag_cons") { 0x24 } else if has("inner_tag_class") { 0x84 } else { 0x04 };
+        let inner = tlv(inner_tag, &key);
+        body.extend(tlv(if has("key_tag") { 0x03 } else if has("key_tag_cons") { 0x24 } else { 0x04 }, &inner));
     } else {
         body.extend(&alg);
         let mut bits = vec![if has("bit_unused") { 3 } else { 0 }];
         bits.extend(&key);
-        body.extend(tlv(if has("key_tag") { 0x04 } else { 0x03 }, &bits));
+        body.extend(tlv(if has("key_tag") { 0x04 } else if has("key_tag_cons") { 0x23 } else { 0x03 }, &bits));
     }
     let mut out = tlv(if has("outer_tag") { 0x31 } else { 0x30 }, &body);
     if has("long_form_len") {
